@@ -204,11 +204,19 @@ def run(ctx, prog):
                        '(active index = wal_segments.len() − 1) and by the true edge of all_entries_covered; every loop-body path '
                        'that does not unlink keeps the segment listed, the file-missing case excepted; the kept list replaces '
                        'manifest.wal_segments')
+    # the function condemns a segment by putting its path on the list it returns (create_snapshot unlinks that list after the pruned MANIFEST is saved, C01.R4);
+    # it performs no unlink itself
     rm = comp.calls_to('std::fs::remove_file')
-    if len(rm) != 1:
-        ctx.missing('C02.R3', 'compact_old_wal_segments: exactly one remove_file call (found %d)' % len(rm))
+    ctx.inst('C02.R3', comp.short, 'decides only: no unlink inside the compaction', not rm, 'remove_file calls in compact_old_wal_segments: %d' % len(rm))
+    ret_o = flow.render(flow.Origin(comp, stop_at_vars=True).of_local(0))
+    mret = re.search(r'Result::Ok\{var:(\w+)\}', ret_o)
+    cvar = 'var:' + mret.group(1) if mret else None
+    cond = [c for c in comp.calls if c.is_('re:Vec<.*>::push$', 're:::push$') and c.args and cvar and flow.render(cv.of_operand(c.args[0])) == cvar]
+    if len(cond) != 1:
+        ctx.missing('C02.R3', 'compact_old_wal_segments: exactly one push onto the returned list of covered segments (found %d; returns %s)' % (len(cond), ret_o[:80]))
     else:
-        rmb = rm[0].bb
+        rmb = cond[0].bb
+        rm = cond
         act = edges_matching(comp, cv, r'^!cmp\[\+ var:active_wal_index - var:idx == 0\]$|^!cmp\[\+ var:idx - var:active_wal_index == 0\]$')
         allc = edges_matching(comp, cv, r'^bool\[var:all_entries_covered\]$')
         for nm, es in (('idx ≠ active index', act), ('all_entries_covered', allc)):
@@ -216,39 +224,33 @@ def run(ctx, prog):
                 ctx.inst('C02.R3', comp.short, 'remove_file guarded by ' + nm, False, 'anchor missing: guard %s not found in a recognised form' % nm)
                 continue
             pass_edges = [(i, tg) for i, tg, p in es]
-            # every path to remove_file crosses one of the pass edges  ≡ unreachable when they are deleted
+            # every path to the condemning push crosses one of the pass edges  ≡ unreachable when they are deleted
             r = comp.reach([0], avoid_edges=pass_edges)
             ctx.inst('C02.R3', comp.short, 'remove_file guarded by ' + nm, rmb not in r,
-                     'remove_file at %s %s' % (rm[0].loc, 'is reachable without passing the guard' if rmb in r else 'only past the guard edge'))
+                     'the push that condemns a segment at %s %s' % (rm[0].loc, 'is reachable without passing the guard' if rmb in r else 'only past the guard edge'))
+        pv = flow.render(cv.of_operand(cond[0].args[1]))
+        ctx.inst('C02.R3', comp.short, 'the condemned path is the segment examined in this iteration', pv in ('var:wal_path',) or 'wal_path' in pv, 'pushed: %s' % pv[:80])
         ai = comp.var_local('active_wal_index')
         if ai:
             r = flow.render(flow.Origin(comp).of_local(ai[0]))
             ctx.inst('C02.R3', comp.short, 'active index = wal_segments.len() − 1',
                      bool(re.search(r'saturating_sub\(Vec::len\(arg:manifest→Manifest\.wal_segments\), 1\)|\(Vec::len\(arg:manifest→Manifest\.wal_segments\) Sub(WithOverflow)? 1\)', r)),
                      'active_wal_index = %s' % r)
-        # keep-or-unlink: from the outer loop's body start, reaching the outer loop head again without remove_file
+        # keep-or-condemn: from the outer loop's body start, reaching the outer loop head again without condemning
         # must pass a push to segments_to_keep or the file-missing edge
         pushes = [c.bb for c in comp.calls if c.is_('re:Vec<.*>::push$', 're:::push$') and c.args
                   and 'segments_to_keep' in flow.render(cv.of_operand(c.args[0]))]
         missing = [(i, tg) for i, tg, p in edges_matching(comp, cv, r'^!bool\[Path::exists\(.*\)\]$')]
-        notfound = [(i, tg) for i, tg, p in edges_matching(comp, cv, r'ErrorKind::NotFound')]
         outer_heads = [c.bb for c in comp.calls if c.is_('re:Enumerate<.*Iterator>::next$')]
         if not outer_heads or not pushes:
             ctx.missing('C02.R3', 'compact_old_wal_segments: outer loop head / segments_to_keep.push')
         else:
             h = outer_heads[0]
             start = comp.succ(h)
-            rm_succ = flow.success_edges(comp, rm[0])
             r = comp.reach(start, avoid_blocks=pushes + [rmb], avoid_edges=missing)
             ctx.inst('C02.R3', comp.short, 'a segment that is not unlinked stays listed (file-missing excepted)', h not in r,
-                     'the next segment can be reached without unlinking, keeping or the file-missing case' if h in r else
-                     '%d keep sites, 1 unlink site, %d file-missing edges cover every loop-body path' % (len(pushes), len(missing)))
-            # a failed unlink (other than NotFound) keeps the segment
-            s2, f2 = flow.outcome_edges(comp, rm[0])
-            if f2:
-                rf = comp.reach([e[1] for e in f2], avoid_blocks=pushes, avoid_edges=notfound) | set(e[1] for e in f2)
-                ctx.inst('C02.R3', comp.short, 'failed unlink keeps the segment listed (NotFound excepted)', h not in rf,
-                         'after a failed remove_file the next segment is reached without keeping the name' if h in rf else 'failed unlink → segments_to_keep.push')
+                     'the next segment can be reached without condemning, keeping or the file-missing case' if h in r else
+                     '%d keep sites, 1 condemn site, %d file-missing edges cover every loop-body path' % (len(pushes), len(missing)))
         asg = util.assign_blocks(comp, r'Manifest\.wal_segments$')
         ctx.inst('C02.R3', comp.short, 'manifest.wal_segments replaced by the kept list', bool(asg), 'assignment blocks: %s' % asg)
 
